@@ -308,16 +308,13 @@ fn class_value_len(i: usize) -> u32 {
     len as u32
 }
 /// the largest key length whose record (chain tail, small offsets) still fits key slot class i
+/// a key length whose record lands in key slot class i whatever the widths of its two offsets are in a
+/// small file (the crate sizes a key record from the raw offsets: 1..3 bytes each below 2 MiB)
 fn class_key_len(i: usize) -> usize {
-    let c = crate::decoder::CLASSES[i] as u64;
     if i >= 15 {
         return 1000;
     }
-    let mut len = c;
-    while len > 0 && crate::decoder::key_slot_for(len, 200, 0) > c {
-        len -= 1;
-    }
-    len as usize
+    crate::decoder::CLASSES[i] as usize - 8
 }
 
 /// one small closure per pair of adjacent slot classes, for values and for keys: every free-list head
@@ -419,9 +416,9 @@ pub fn many_sizes_closure(ctx: &mut Ctx, prop: &str, oracles: u32, clauses: u32,
 pub fn class_ladder_keys(ctx: &mut Ctx, prop: &str, oracles: u32, clauses: u32, reopen: bool, step: usize) {
     let seed = ctx.seed;
     for i in (0..15).step_by(step) {
-        // the largest key length that fits class i, one byte more (class i+1), and a short third key: a
-        // freed slot of class i with a live record behind it, then a request for class i+1
-        let a = Alpha { label: "class ladder (keys)", colliding: vec![class_key_len(i), class_key_len(i) + 1, 6], other: vec![], vals: vec![3] };
+        // a key of slot class i, a short key, a key of class i+1: a freed slot of class i with a live record
+        // behind it, then a request for class i+1 (and the other way round)
+        let a = Alpha { label: "class ladder (keys)", colliding: vec![class_key_len(i), 6, class_key_len(i + 1)], other: vec![], vals: vec![3] };
         let mut cfg = make_cfg(prop, KtId::Bytes, 8, &a, seed);
         cfg.oracles = oracles;
         cfg.clauses = clauses;
@@ -429,7 +426,7 @@ pub fn class_ladder_keys(ctx: &mut Ctx, prop: &str, oracles: u32, clauses: u32, 
             cfg.params = reopen_params(cfg.params[0]);
         }
         let starts: Vec<Start> = empty_start(ctx, &cfg).into_iter().collect();
-        run_closure(ctx, &format!("class ladder: colliding keys of {}, {} and 6 bytes (key slots {} and {}) x {{3}}", a.colliding[0], a.colliding[1], crate::decoder::CLASSES[i], crate::decoder::CLASSES[i + 1]), &cfg, starts, 100_000, 20.0);
+        run_closure(ctx, &format!("class ladder: colliding keys of {}, 6 and {} bytes (key slots {} and {}) x {{3}}", a.colliding[0], a.colliding[2], crate::decoder::CLASSES[i], crate::decoder::CLASSES[i + 1]), &cfg, starts, 100_000, 20.0);
         if ctx.run.too_many() || !ctx.run.violations.is_empty() {
             return;
         }
@@ -489,12 +486,23 @@ pub fn c01(tier: &str, seed: u64) -> i32 {
             crate::props_c08::SeedSpec { file: "key", boundary: 128 * 1024, eps: 0, free_slots: 2, val_pad: 1200 },
         ];
         crate::props_c08::seeded_group(&mut ctx, "C01", O_API, 0, 2, vec![3, 200], &specs, 60_000, 10.0);
+        // chain links of three bytes whose last byte is 3 (key file beyond 192 KiB) next to two-byte value offsets,
+        // three keys: one can sit in a low freed slot and point to one beyond the boundary
+        let specs200 = vec![crate::props_c08::SeedSpec { file: "key", boundary: 200 * 1024, eps: 0, free_slots: 2, val_pad: 1201 }];
+        crate::props_c08::seeded_group(&mut ctx, "C01", O_API, 0, 3, vec![3], &specs200, 30_000, 6.0);
         // a table size that is not a power of two is requested (the table really has 16 buckets)
         let a = &alphas_small()[0];
         let mut cfg = make_cfg("C01", KtId::Bytes, 16, a, seed);
         cfg.params[0].ht = HtP::Buckets(10);
         cfg.oracles = O_API;
-        let starts: Vec<Start> = empty_start(&mut ctx, &cfg).into_iter().collect();
+        let mut starts: Vec<Start> = empty_start(&mut ctx, &cfg).into_iter().collect();
+        // and a start image whose first entry was stored by the session that created the table
+        let v0 = cfg.value(0, 0);
+        if let Ok(image) = build_image(&ctx.pool, KtId::Bytes, &cfg.params[0], &[Step::Put(cfg.keys[0].clone(), v0)]) {
+            let mut code = vec![0u8; cfg.keys.len()];
+            code[0] = 1;
+            starts.push(Start { label: "map created with BucketsSize(10), first entry stored by the creating session".into(), image, code });
+        }
         run_closure(&mut ctx, &format!("{} [bytes, BucketsSize(10) requested]", a.label), &cfg, starts, 100_000, 20.0);
         non_utf8_closure(&mut ctx, "C01", O_API, 0);
     }
@@ -900,7 +908,7 @@ pub fn c17(tier: &str, seed: u64) -> i32 {
         crate::props_c08::seeded_group(&mut ctx, "C17", o, clauses, 2, vec![3, 200], &specs, 60_000, 10.0);
         class_ladder(&mut ctx, "C17", o, clauses, false, 3);
     }
-    for lens in [vec![1000usize, 1500], vec![class_key_len(13), class_key_len(14), class_key_len(14) + 1]] {
+    for lens in [vec![1000usize, 1500], vec![class_key_len(13), class_key_len(14), 1000]] {
         // freed key slots of the largest exact class and of the shared large class
         let a = Alpha { label: "long keys", colliding: lens.clone(), other: vec![], vals: vec![8] };
         let mut cfg = make_cfg("C17", KtId::Bytes, 8, &a, seed);
